@@ -1,18 +1,62 @@
+# header unit group as in harness/specs.d/C25.py
 HDR = TOK + ["src/HttpHeader.cc", "src/HttpHeaderTools.cc", "src/http/RegisteredHeaders.cc", "src/http/ContentLengthInterpreter.cc",
              "src/http/one/Parser.cc", "src/String.cc", "src/StrList.cc", "src/MemBuf.cc", "src/mime_header.cc", "src/SquidConfig.cc",
              "src/ip/Address.cc", "src/helper/ChildConfig.cc", "lib/util.cc", "compat/xstring.cc"]
-_U = HDR + ["src/http.cc", "src/HttpRequest.cc", "src/HttpReply.cc", "src/http/Message.cc", "src/HttpBody.cc", "src/HttpHdrCc.cc",
-            "src/http/RequestMethod.cc", "src/http/MethodType.cc", "src/http/StatusLine.cc", "src/http/StatusCode.cc",
-            "src/anyp/UriScheme.cc", "src/anyp/ProtocolType.cc", "lib/rfc1738.cc"]
-_e = lambda n, b, r, **kw: dict(name=n, bounds=b, reach=list(r), **dict(dict(max_samples=6, sample_every=97), **kw))
+_U = HDR + ["src/http.cc", "src/client_side.cc", "src/clients/Client.cc", "src/refresh.cc", "src/MemObject.cc", "src/HttpRequest.cc", "src/HttpReply.cc",
+            "src/http/Message.cc", "src/HttpBody.cc", "src/HttpHdrCc.cc", "src/http/RequestMethod.cc", "src/http/MethodType.cc", "src/http/StatusLine.cc",
+            "src/http/StatusCode.cc", "src/anyp/UriScheme.cc", "src/anyp/ProtocolType.cc", "lib/rfc1738.cc"]
+_e = lambda n, b, r, **kw: dict(name=n, bounds=b, reach=list(r), **dict(dict(max_samples=4, sample_every=53), **kw))
+_MO = ("match", "other-variant")
+_c = ("; b = fully symbolic byte (any value but NUL); R1 = the request that stored the variant, R2 = the later request (header names spelled in another case than R1's); "
+      "R2 is taken through varyEvaluateMatch() three ways: marker object then variant object, and variant object directly")
+def _fam(th):
+    f = lambda q, t: t if th else q
+    return [
+        _e("c13_value", "Vary: x-v" + f("", " | Vary: a.ccept-encodin.g with the case of the two dotted letters symbolic") + "; nominated field = b in R1, b" + f("", " | b '22'") + " in R2" + _c, _MO),
+        _e("c13_states", "Vary 'accept-Encoding, X-v' | two lines 'Accept-Encoding', 'x-V'" + f("", " | 'USER-agent,x-v'") + "; R1: Accept-Encoding" + f("", ", User-Agent") +
+           " in {absent, 'q'}, X-V in {absent, empty, b}; R2: Accept-Encoding" + f("", ", User-Agent") + " in {absent, empty, 'q'}, X-V in {absent, 'q'" + f("", ", empty") + "}" + _c, _MO),
+        _e("c13_names", "(a) Vary '.x-v, user-agent' | 'User-.Agent,x-v'" + f("", " (and '.x-v' there) | '.x-v, X-.V'") + " with the case of the dotted letter symbolic; User-Agent in {absent,'q'}, X-V 'q' (R1), in {'q','r'} (R2); "
+           "(b) variant stored under one of 'x-v, User-Agent' | 'user-agent,X-V' | 'x-v, X-V' | 'X-v'" + f("", " | 'user-agent' | two lines 'x-v','user-agent'") + ", marker object carrying any of the same list; "
+           "User-Agent and X-V each in {absent, 'q'" + f("", ", b / 'r'") + "} in both requests" + _c, _MO),
+        _e("c13_inject", "(1) variant stored under 'x-v, accept-encoding' by X-V '1', Accept-Encoding '2'; marker 'x-v'; R2 X-V = '1' b ', accept-encoding=' " + f("'\"'", "b") + " '2'; "
+           "(2) Vary 'x-v': R1 X-V in {'\"', ' ', '%'" + f("", ", 'a'") + "}, R2 X-V in {b '22', b '20'" + f("", ", b '25', '%' b '2'") + "}; "
+           "(3) Vary 'accept-encoding, x-v': R1 Accept-Encoding '1\", x-v=\"2', X-V '3'; R2 Accept-Encoding '1', X-V '2' b ', x-v=\"3'" + _c, ("other-variant",)),
+        _e("c13_list", "Vary 'accept-encoding' b b 'x-v' | 'x-v' b '*'" + f("", " | '*' b 'x-v' | b '*' b") + " with b any byte but NUL, CR, LF; R1: Accept-Encoding 'a', X-V 'b'; R2: Accept-Encoding in {'a','c'}, X-V in {'b','c',absent}" + _c,
+           _MO + ("star",)),
+        _e("c13_star", "HttpStateData::haveParsedReplyHeaders() on a reply with Vary '*' | 'x-v, *' | '*, x-v' | two lines 'x-v','*' | 'x-v' b '*' | '*' b 'x-v'" + f("", " | b '*' b") +
+           " (b any byte but NUL, CR, LF), status in {200,203,300,301,410,404}, no Cache-Control/Expires, to a request with X-V absent or 'q'; then a later request (X-V absent or 'q') "
+           "0..1200 s later through varyEvaluateMatch() and refreshCheckHTTP()", ("star-stored", "star-private", "no-star")),
+    ]
 SPEC = dict(
     harness="C13_vary.cc", units=_U, unit_flags={"compat/xstring.cc": ["-Dxstrdup=vf_unused_squid_xstrdup"]},
     scope="kernel",
-    scope_note="kernel decided: ...; gap: ...",
-    entries=dict(
-        quick=[_e("c13_mark_basic", "...", ("same-mark", "different-mark"))],
-        thorough=[_e("c13_mark_basic", "...", ("same-mark", "different-mark"))]),
-    timeout=dict(quick=900, thorough=1800),
-    stubs=[],
-    outside="",
+    scope_note="kernel decided: (K1) the variant key httpMakeVaryMark()/assembleVaryKey() (src/http.cc, with the real strListGetItem(), HttpHeader::getList()/getByName(), "
+               "SBuf::toLower(), rfc1738_escape_part()) and (K2) the variant test varyEvaluateMatch() (src/client_side.cc) that clientReplyContext::cacheHit() switches on, driven as "
+               "cacheHit() drives it (Vary marker object first, then the variant object found under URL+mark; and the variant object met directly): for a variant stored by request R1 "
+               "(mem_obj->vary_headers = httpMakeVaryMark(R1, reply), as haveParsedReplyHeaders() sets it) a later request R2 gets VARY_MATCH -- and equal variant keys -- only if R1 and R2 "
+               "agree (absent/present, length, every byte) on every header field that the stored reply's Vary nominates; the marker object itself is never 'the entity'; a Vary with a member "
+               "'*' always yields exactly the mark '*'. (K3) HttpStateData::haveParsedReplyHeaders() gives a reply whose Vary has a member '*' a public key only together with "
+               "ENTRY_REVALIDATE_ALWAYS, and refreshCheckHTTP() (src/refresh.cc) then answers 'stale' for every later request, which is what sends cacheHit() to the origin. "
+               "gap: the rest of clientReplyContext::cacheHit() (that VARY_OTHER re-enters the store lookup with the new key and VARY_CANCEL/stale lead to processMiss()/processExpired()); "
+               "storeKeyPublicByRequest() (MD5 over method, URL and mark -- equal marks are treated as 'same key'); StoreEntry::adjustVary() creating the marker object; "
+               "src/store.cc and src/MemObject.cc keeping mem_obj->vary_headers across swap-out/swap-in; what the origin's 304/200 does to a revalidated Vary: * entry (C14)",
+    entries=dict(quick=_fam(False), thorough=_fam(True)),
+    timeout=dict(quick=900, thorough=3000),
+    stubs=["HttpRequest, StoreEntry, MemObject, HttpStateData are zeroed raw memory of the real size (not constructed); set directly: HttpRequest::method/header/vary_headers, "
+           "StoreEntry::mem_obj/flags/timestamp/expires/lastModified_, MemObject::storeId_/method/vary_headers/reply_ (RefCount written as raw pointer), HttpStateData::entry/request/theFinalReply; "
+           "HttpReply is really constructed, its fields added with HttpHeader::addEntry()/putStr() as HttpHeader::parse() stores them, then hdrCacheInit() (K3)",
+           "request header fields are added with HttpHeader::addEntry(new HttpHeaderEntry(id looked up in the registered-name table, name, value)) -- what HttpHeader::parse() does after splitting a line",
+           "store.cc is not linked: StoreEntry::makePublic()/cacheNegatively()/makePrivate() are recorders, timestampsSet() a no-op (entry times set by the harness: received now, no expiry, "
+           "no Last-Modified), lock()/unlock() no-ops, storeGetPublic()/storeGetPublicByRequest() return 'nothing cached yet'; neighbors_do_private_keys = 0",
+           "the store lookup between the two varyEvaluateMatch() passes is not executed: the variant object is handed to the second pass whatever the key, and 'same key' is computed as "
+           "byte equality of request->vary_headers and the variant's mark",
+           "StatHist::enumInit/count no-ops; SquidConfig Config is the real global, zero-initialised, with minimum_expiry_time 60, max_stale 1 week, negative_ttl 0, no refresh_pattern, "
+           "offline_mode off; squid_curtime set by the harness", "libc models (strspn/strcspn/strcmp/tolower/snprintf %02X, C locale)", "debugs() disabled"],
+    assumptions=["'header fields named in Vary' are read from the Vary text by a reference reader that splits at commas outside double quotes and trims SP/HTAB; it claims a name (or '*') only "
+                 "for an item equal to it case-insensitively, and nothing for items containing a double quote (not valid Vary syntax)",
+                 "'match' = same presence, same length, same bytes; each request carries at most one field line per nominated name (Squid's joining of several lines with ', ' is the "
+                 "normalisation RFC 9111 4.1 allows and is not exercised)",
+                 "X_ACCELERATOR_VARY is off in this build (configure default)"],
+    outside="Vary texts, names and values other than the listed families (values longer than the templates, more than two nominated names, names other than Accept-Encoding, User-Agent, X-V); "
+            "several request field lines with the same name; everything listed under gap",
 )
